@@ -176,3 +176,14 @@ def c13_fn_with_jit(v):
 
 def c13_outer_with_jit_in_body(x):
     return c13_fn_with_jit(x) - x
+
+
+@onnx_function
+def c14_inner_params(x, deterministic=True, scale=1.0, flag=False):
+    import jax.numpy as jnp
+
+    return jnp.where(deterministic, x * scale, x * 0.0) + jnp.where(flag, 1.0, 0.0)
+
+
+def c14_outer_params(x, deterministic=True, scale=1.0, flag=False):
+    return c14_inner_params(x, deterministic=deterministic, scale=scale, flag=flag) * 2.0
